@@ -167,6 +167,19 @@ CHECKS = {
         "Trusted: mc/actorsim.py (transport semantics, 350 lines), mc/vloop.py, mc/fakees.py, mc/racesim.py (stubs for config/track loading). "
         "Real TCP transport and OS-level preemption between sync points are outside the model.",
     ),
+    "C07": (
+        "model_checking",
+        "stateless deviation-bounded exploration of complete simulated races including sample shipment, periodic and step-boundary "
+        "post-processing and metric hand-over; handler/executor-thread preemption at sync points; final store compared with the request log",
+        "DESIGN.md §4 C07",
+        "6 schedule shapes (sequential, parallel, several rows per step on one worker, tasks ending exactly on a worker wake-up, 8 s requests "
+        "across the 30 s periodic post-processing, composite with named sub-requests) x layouts x downsampling {1,2} x sample queue {default,2}; "
+        "all schedules within 1 deviation (2 on the stacked-rows shape, incl. preemption of the wake-up handler by the executor thread). "
+        "Oracle: per (task, client) exactly one latency / service_time / processing_time record per logged request with the right labels and "
+        "service-time values, one service_time record per dependent sub-request under its own operation, nothing extra; fewer only with "
+        "downsampling or a full queue; throughput present and identical with and without downsampling.",
+        "Trusted: as C01, plus the emulation of BenchmarkCoordinator's bulk_add hand-over by the environment.",
+    ),
 }
 
 NOT_YET = {}
